@@ -19,9 +19,56 @@ Theorem C20_collector_budget : forall conc b orc sched p sid tg r s,
 Proof. exact collector_budget. Qed.
 Print Assumptions C20_collector_budget.
 
+(* on_job_result receives exactly the successful completions that precede the first failure, in completion order and
+   each once, with the job object that was started under that sid; when collect_async returns every started job's result
+   has been delivered exactly once *)
+Theorem C20_collector_exactly_once : forall conc budget orc sched,
+  let c := run conc budget orc sched in
+  let tr := trace c in
+  map rp (results tr) = oks_pre (dones tr)
+  /\ NoDup (map fst (dones tr))
+  /\ (forall s tg p, In (s, tg, p) (results tr) -> In (s, tg) (takes tr))
+  /\ map fst (takes tr) = seq 0 (n_take tr)
+  /\ (st c = Halted -> Permutation.Permutation (map sid_of (results tr)) (seq 0 (n_take tr))).
+Proof. exact collector_exactly_once. Qed.
+Print Assumptions C20_collector_exactly_once.
+
+(* no fuel exhaustion; suspended only while a sampler call is in flight; returns iff idle, with everything started
+   completed and delivered; spare capacity and budget are left unused only when the queue is empty and the last next_job()
+   answer was empty; the exception raised is the failure of one of the jobs *)
+Theorem C20_collector_progress : forall conc budget orc sched,
+  let c := run conc budget orc sched in
+  let tr := trace c in
+  st c <> OutOfFuel
+  /\ (st c = Waiting -> n_done tr < n_start tr /\ n_result tr = n_done tr /\ n_start tr = n_take tr)
+  /\ (st c = Halted <-> n_take tr = n_result tr)
+  /\ (st c = Halted -> n_result tr = n_done tr /\ n_done tr = n_start tr /\ n_start tr = n_take tr)
+  /\ (st c = Waiting \/ st c = Halted ->
+      match budget with Some b => (charged tr < b)%Z | None => True end ->
+      n_take tr < n_result tr + conc -> queued c = [] /\ starved (rev tr) = true)
+  /\ (forall e, st c = Raised e -> exists s, In (s, Err e) (dones tr)).
+Proof. exact collector_progress. Qed.
+Print Assumptions C20_collector_progress.
+
+(* if the jobs in flight keep completing, the loop finishes *)
+Theorem C20_collector_terminates : forall conc budget orc sched,
+  exists k, st (run conc budget orc (sched ++ repeat [(0, Ok 0%Z)] k)) <> Waiting.
+Proof. exact collector_terminates. Qed.
+Print Assumptions C20_collector_terminates.
+
 (* non-vacuity: a run that starts three jobs under concurrency 2 and budget 5, completing out of order *)
 Example C20_collector_example :
   trace (run 2 (Some 5%Z) [[mkjob 10 2%Z; mkjob 11 2%Z]; [mkjob 12 2%Z; mkjob 13 2%Z]] [[(1, Ok 7%Z)]; [(0, Ok 8%Z); (0, Ok 9%Z)]])
   = [EAsk [10; 11]; ETake 0 10 2%Z; ETake 1 11 2%Z; EStart 0; EStart 1; EDone 1 (Ok 7%Z); EResult 1 11 7%Z;
      EAsk [12; 13]; ETake 2 12 2%Z; EStart 2; EDone 0 (Ok 8%Z); EDone 2 (Ok 9%Z); EResult 0 10 8%Z; EResult 2 12 9%Z; EHalt].
+Proof. vm_compute. reflexivity. Qed.
+
+(* non-vacuity of the conditional clauses: a halted run, a suspended run with spare capacity, a raising run *)
+Example C20_collector_example_halted : st (run 2 None [[mkjob 1 1%Z]] [[(0, Ok 5%Z)]]) = Halted.
+Proof. vm_compute. reflexivity. Qed.
+Example C20_collector_example_waiting :
+  let c := run 3 (Some 9%Z) [[mkjob 1 1%Z]; []] [] in
+  st c = Waiting /\ (charged (trace c) < 9)%Z /\ n_take (trace c) < n_result (trace c) + 3.
+Proof. vm_compute. repeat split; reflexivity. Qed.
+Example C20_collector_example_raised : st (run 2 None [[mkjob 1 1%Z; mkjob 2 1%Z]] [[(1, Err 4%Z); (0, Ok 5%Z)]]) = Raised 4%Z.
 Proof. vm_compute. reflexivity. Qed.
